@@ -266,11 +266,11 @@ class C16(Prop):
         "idFilterAdv_origorder", "consensus_by_all_selects", "consensus_by_rf_selects", "consensus_by_sample_selects",
         "pbAdv_consensus_cascade", "average_sampling_in_bounds", "average_all_empty", "linkage_additive_ultrametric", "idFilterAdv_consensus_cascade", "linkage_cladesizes_root", "fragment_rule_documented", "pairId_text_digital_agree", "pairId_text_digital_agree_dna", "msaSingleLinkage_one_cluster_at_zero", "idFilterText_keeps_first_at_zero", "blosum_all_one_at_zero", "idFilterDigital_keeps_top_at_zero",
         "gsc_tieRule_family_contains_code", "gsc_tieRule_irrelevant_without_ties", "gsc_no_tieRule_is_relisting_invariant", "gsc_sum_nonneg_any_join_order",
-        "simulate_roll_names_active_branch", "simulate_invariant", "simulate_step_in_bounds", "simulate_finish_in_bounds")]
+        "simulate_roll_names_active_branch", "simulate_invariant", "simulate_step_in_bounds", "simulate_finish_in_bounds", "compare_self_ok")]
     claimed = True
     technique = ("Lean 4 proof over the exact (Q) instance of a numeric-class-polymorphic executable model of esl_distance/esl_cluster/"
                  "esl_msacluster/esl_quicksort/esl_msaweight/esl_tree(UPGMA) + bit-exact differential correspondence of the Float instance "
-                 "of the same definitions with the ASan/UBSan-built C code + independent python monitors (fractions, union-find)")
+                 "of the same definitions with the ASan/UBSan-built C code + independent python monitors (fractions, union-find, clade sets, path lengths)")
     level_text = ("Theorems for every alignment (any size), both text and digital mode, any threshold, any symmetric link function, any "
                   "consensus rule / fragment threshold / RF line: PairId = identical pairs / shorter ungapped length (symmetric, 1 on equal "
                   "non-empty rows, 0 on empty, EINVAL when unaligned); single linkage = exactly the connected components, clusters "
@@ -294,12 +294,20 @@ class C16(Prop):
                   "sequence; DiffMx = 1 - pid, symmetric, in [0,1], =1 against an empty row; JukesCantorMx symmetric, fails iff some pair fails; "
                   "XAvgConnectivity = (XAverageId, fraction of pairs strictly above the threshold in [0,1]); XAvgSubsetConnectivity = the same on the "
                   "rows V names; the sampling branches draw, for EVERY generator state, at most max_comparisons pairs of two different rows inside the alignment. "
+                  "Round 6: cluster_engine with the pair to join as a parameter (gscWith): the code is the instance 'first minimum'; where no pass ties "
+                  "EVERY tie rule gives the code's weights; NO tie rule (any function of the whole engine state returning a minimum pair) makes GSC weights "
+                  "follow the rows under relisting (every rule fails on AAAA/AABB/BBBB reversed); GSC weights are N numbers >= 0 summing to N whatever pair "
+                  "each pass joins (so also along the binary64 code's own tie decisions). esl_tree_Simulate (over the stream of draws): for every generator "
+                  "state each branch index names an active branch and every unchecked array index of the loop and of the final pass is in range. "
+                  "esl_tree_{SetTaxaParents,SetCladesizes,VerifyUltrametric,ToDistanceMatrix,RenumberNodes,Compare,Simulate} are modelled in the C array "
+                  "layout and compared bit-exactly on cluster_engine trees (all four modes) and simulated trees. "
                   "The hand model is tied to the working tree by an exact differential run (weights as bit patterns, thresholds equal to "
                   "attained identities) and property monitors recompute every claim independently on the implementation's output.")
     level_note = ("Theorems are about exact rational arithmetic (L1); the binary64 results differ by rounding (L0, monitors use 1e-9). "
                   "Model fidelity is checked, not proved. GSC is modelled and compared bit-exactly; proved: >= 0 and sum N for every alignment; "
                   "'identical rows => identical weights' and 'relisting permutes the weights when no pairwise distances tie' are FALSE for the "
-                  "code (two known findings with Lean-proved witnesses: position-dependent tie-breaking in cluster_engine); both are PROVED "
+                  "code (two known findings with Lean-proved witnesses: position-dependent tie-breaking in cluster_engine; round 6: proved that no tie rule "
+                  "for pairwise joins can restore relisting-invariance, gsc_no_tieRule_is_relisting_invariant, so the repair is another algorithm); both are PROVED "
                   "under the hypothesis that is actually needed, no tie for the minimum in any UPGMA pass (gsc_relisting_tie_free, "
                   "gsc_identical_rows_tie_free), and monitored there as well (exact-fraction UPGMA in the monitor). The UPGMA model keeps "
                   "distances keyed by cluster identity (append-only rows) and the C position table separately; same operands, same order. "
@@ -308,7 +316,7 @@ class C16(Prop):
                   "sample) but are NOT equivariant under relisting (pb_relisting_fails_with_sampling; outside the stated range for the "
                   "default sampthresh 50000).")
     trusted_base = ["hand model of esl_distance.c (every public function: C/X PairId, PairMatch, JukesCantor, PairIdMx, DiffMx, JukesCantorMx, AverageId/AverageMatch, XAvgConnectivity, XAvgSubsetConnectivity incl. their sampling branches), esl_rand64.c (Deal), esl_cluster.c, esl_msacluster.c, esl_quicksort.c, esl_msaweight.c "
-                    "(PB text/digital, BLOSUM, GSC, IDFilter text/adv), esl_tree.c (cluster_engine in all four modes: UPGMA, WPGMA, single, complete linkage; SetTaxaParents, SetCladesizes), esl_vectorops.c "
+                    "(PB text/digital, BLOSUM, GSC, IDFilter text/adv), esl_tree.c (cluster_engine in all four modes: UPGMA, WPGMA, single, complete linkage; SetTaxaParents, SetCladesizes, VerifyUltrametric, ToDistanceMatrix, RenumberNodes, Compare without labels, Simulate), esl_vectorops.c "
                     "(DSum/DNorm/DScale) tied by exact differential run (h_weights.c, ASan+UBSan build of the working tree)",
                     "Lean compiler/runtime for the executable driver; Float/Float32 = IEEE binary64/binary32 as in gcc -O1 -ffp-contract=off",
                     "python monitors (props/c16.py) as independent oracle on implementation output"]
@@ -320,12 +328,15 @@ class C16(Prop):
                    "the independent exact-fraction GSC oracle in the monitor is therefore applied only where no UPGMA step ties",
                    "GSC: equal weights for identical rows and equivariance under relisting are false in general (known findings) and proved "
                    "when no UPGMA pass has a tie for its minimum",
-                   "not covered in the anchored files: esl_tree.c beyond cluster_engine (4 modes)/SetTaxaParents/SetCladesizes/Validate (Newick I/O, "
-                   "RenumberNodes, Simulate, ToDistanceMatrix, Compare), benchmark/stats drivers",
+                   "not covered in the anchored files: esl_tree.c Newick I/O (WriteNewick/ReadNewick, esl_tree_Grow, CreateFromString), SetTaxonlabels and the "
+                   "labelled branch of esl_tree_Compare, Validate (called, its verdict compared, not modelled); benchmark/stats drivers",
+                   "the tree functions added in round 6 are tied (bit-exact) and monitored; theorems exist for Simulate's index safety only — no theorem yet that "
+                   "VerifyUltrametric accepts every additive cluster_engine tree, that ToDistanceMatrix returns the path metric, or that Compare decides equality of clade sets "
+                   "(each is checked by an independent python monitor on the implementation's output); loops the C code leaves unbounded on a malformed tree take fuel in the model",
+                   "esl_tree_RenumberNodes does not renumber T->cladesize[] (the harness recomputes it); esl_tree_Simulate: -log of a uniform deviate is the libm value on both sides",
                    "esl_dst_XAvgSubsetConnectivity: every V[i] < N (the C code only asserts it at debug level)",
                    "unaligned input (sequences of different length) is driven through every matrix / averaging routine (op ragged: status, NULL "
-                   "outputs) EXCEPT esl_dst_{C,X}Average{Id,Match} in their sampling branch: they `return status` out of the loop, leaving the "
-                   "output untouched and leaking the generator (documented: output 0; fix proposed: /var/tmp/fixes-proposed/C16-average-error-paths.*)",
+                   "outputs), since round 6 including esl_dst_{C,X}Average{Id,Match} in their sampling branch (repaired by 640fa96: eslEINVAL, output 0, generator freed)",
                    "the FORM of the consensus test (gap fraction < symfrac, as coded, vs residue fraction >= symfrac, as documented) is read "
                    "from the working tree each run (Weights/SymfracRule.lean); the theorems hold for any rule predicate; the binary32 evaluation is the driver's",
                    "cluster_engine: theorems over Q for every finite matrix; +inf entries ('unlinked' in linkage trees) are compared "
@@ -342,7 +353,11 @@ class C16(Prop):
             "(ties, zeros, ultrametric, negative entries, +inf = unlinked), whole ESL_TREE compared; optional-output call modes (opt= masks: any subset of the "
             "optional results requested), ESL_MSAWEIGHT_DAT reused across configurations, all its diagnostic fields compared, thresholds outside [0,1] and NaN, "
             "sequences of unequal length through the matrix / averaging routines (op ragged); "
-            "free-standing PairId incl. unaligned. non-trivial = at least 3 successful computing ops; distinct by output trace")
+            "free-standing PairId incl. unaligned; round 6: esl_msacluster_SingleLinkage with every combination of its optional outputs (NULL / allocated / caller-provided x3), "
+            "tree functions (VerifyUltrametric, ToDistanceMatrix, SetCladesizes, Compare, RenumberNodes) on the tree of every tree case and esl_tree_Simulate for N = 2..64 x seeds, "
+            "boundary alignments by construction (fragment span = minspan-1 / minspan / minspan+1 for fragthresh 0.5 / 0.3 / 0.75 / 1.0 in binary32, sampthresh = nseq-2..nseq+1, "
+            "maxfrag around the fragment count, N = 1, 2, inner all-gap columns, two-letter alignments of 1..4 columns where every UPGMA pass ties). "
+            "non-trivial = at least 3 successful computing ops; distinct by output trace")
     diverge_is_violation = True    # every op is a deterministic function of the alignment that the model specifies bit-exactly
     quick_budget_s = 90
 
